@@ -409,7 +409,7 @@ def corpus_pipeline(family, n, sd, tags="", l2=False):
 
 def build_tool(name):
     """Build harness/<name> against /repo's working tree (replace => /repo)."""
-    out = os.path.join(cache_dir(), name)
+    out = os.path.join(cache_dir(), name + "-" + harness_hash())
     with Lock("build-" + name):
         if os.path.exists(out):
             return out
@@ -540,12 +540,17 @@ def l0_pegvm(family, n, sd, maxin=60):
 
 def build_fe(variant="", frontend_src=None):
     """variant names the build; frontend_src: path of the peg.peg.go to link (default: the checked-in one)."""
-    out = os.path.join(cache_dir(), "fe" + ("-" + variant if variant else ""))
+    out = os.path.join(cache_dir(), "fe" + ("-" + variant if variant else "") + "-" + harness_hash())
     with Lock("build-fe-" + variant):
         if os.path.exists(out):
             return out
         d = scratch("verif-fe-")
-        shutil.copy(frontend_src or os.path.join(REPO, "peg.peg.go"), os.path.join(d, "peg.peg.go"))
+        src = open(frontend_src or os.path.join(REPO, "peg.peg.go")).read()
+        # the parser struct embeds *tree.Tree; the harness substitutes a logging wrapper with the same method set
+        marker = "\t*tree.Tree\n"
+        if src.count(marker) != 1:
+            raise Infra("cannot locate the embedded *tree.Tree in the front end's parser struct")
+        open(os.path.join(d, "peg.peg.go"), "w").write(src.replace(marker, "\t*LogTree\n") + "\nvar _ = tree.New // keeps the import used\n")
         shutil.copy(os.path.join(VERIF, "harness", "fe", "fe_main.go.txt"), os.path.join(d, "fe_main.go"))
         with open(os.path.join(d, "go.mod"), "w") as fh:
             fh.write(f"module fe\n\ngo 1.25\n\nrequire github.com/pointlander/peg v0.0.0\n\nreplace github.com/pointlander/peg => {REPO}\n")
